@@ -79,7 +79,7 @@ theorem handleTx_propsF (s : St) (e : Bool) (ht : Int) (tx : TxIn) (hp : LedF (P
     (htx : e = true → TxOptsOK G tx) : LedF (PropG G) (handleTx s e ht tx).1.props := by
   by_cases hc : (handleTx s e ht tx).2.code = 0
   · by_cases h1 : tx.type = TRX_PROPOSAL
-    · obtain ⟨msg, start, period, applying, optType, opts, acc, hprops⟩ := proposal_success h1 hc
+    · obtain ⟨msg, start, period, applying, optType, opts, acc, hprops⟩ := proposal_successW h1 hc
       rw [hprops]
       exact hp.set _ _ _ (fun he => snapshot_optsG (htx he msg start period applying optType opts acc.payload) s tx _ _ _ _)
     by_cases h2 : tx.type = TRX_VOTING
